@@ -417,6 +417,7 @@ type PState struct {
 	LbView    int        `json:"lbView"`
 	SentAt    int64      `json:"sentAt"`
 	RttAvg    int64      `json:"rttAvg"`
+	RttOld    int64      `json:"rttOld"`
 	Tpb       int64      `json:"tpb"`
 	MaxTpb    int64      `json:"maxTpb"`
 	VerifOk   bool       `json:"verifiedOk"` // application accepted the (pre-)block of the stored proposal in this view
@@ -583,7 +584,7 @@ func (n *Node) proj(handed *Block, handedPre *PreBlock) *PState {
 	}
 	s.Sub = vs.TxSubscriptionOn
 	s.LbTs, s.LbTime, s.LbIdx, s.LbView = vs.LastBlockTimestamp, tnano(vs.LastBlockTime), vs.LastBlockIndex, int(vs.LastBlockView)
-	s.SentAt, s.RttAvg = tnano(vs.PrepareSentTime), int64(vs.RttAvg)
+	s.SentAt, s.RttAvg, s.RttOld = tnano(vs.PrepareSentTime), int64(vs.RttAvg), int64(vs.RttOld)
 	s.Tpb, s.MaxTpb = int64(vs.TimePerBlock), int64(vs.MaxTimePerBlock)
 	return s
 }
